@@ -140,6 +140,8 @@ func (d *SchemaData) GetSchemaDefinition() (*schema.SchemaDefinition, error) {
 					def.MemberTypes = append(def.MemberTypes, obj)
 				}
 			}
+			// Unions that no field refers to can still be used as type conditions.
+			ret.AdditionalTypes = append(ret.AdditionalTypes, def)
 		case "ENUM":
 			def := types[t.Name].(*schema.EnumType)
 			def.Name = t.Name
